@@ -10,14 +10,14 @@
                          array (tracked counts untouched); full = with tracked counts
      valid_tsb ts        boolean validity of (edges, insertion/removal index, breakpoints):
                          evaluated to true on every correspondence case of every run
-     finite_op           every op except seek(NaN)
+     finite_op           every op except seek(NaN) (Python level or low level)
      abs t               (index, left, right, parent array, edge array, num_edges)
      fresh_ops k         [] for k = -1, [seek_index k] otherwise: "a fresh Tree moved there"
    Non-vacuity: Example ex_ts_valid / ex_ops_finite / ex_run in C06/Theorems.v (a 4-tree
-   sequence and a 13-op sequence meeting every hypothesis below). *)
+   sequence and a 15-op sequence meeting every hypothesis below), ex_iter_run (IterProofs.v). *)
 From Coq Require Import List ZArith.
 From TskVerif Require Import Base.Common C06.Model C06.Facts C06.BasicProofs C06.ListFacts C06.Valid
-  C06.CursorProofs C06.NavProofs C06.Theorems.
+  C06.CursorProofs C06.NavProofs C06.Theorems C06.IterProofs.
 Import ListNotations.
 Open Scope Z_scope.
 
@@ -80,6 +80,22 @@ Theorem seek_linear_terminates : forall ts ops v, valid_tsb ts = true -> Forall 
   exists st outs t', run core ts ops = Ok (st, outs) /\
     forall fuel, Z.of_nat fuel >= num_trees ts + 1 -> tree_seek fuel core ts (fst st) (Fin v) = Ok t'.
 Proof. exact seek_linear_terminates_proof. Qed.
+
+(* (f) TreeIterator: `for t in ts.trees()` yields the trees 0, 1, ..., T-1 in this order, each
+   in a state satisfying the navigation invariant [inv] (cursor invariant + arrays = SPEC),
+   then raises StopIteration for ever with the tree back in the null state; reversed(...)
+   yields T-1, ..., 0.  ([expect_fwd ts (-1) n] / [expect_rev T n] are the first n answers.) *)
+Theorem iter_forward : forall ts n, valid_tsb ts = true ->
+  exists it', iter_n core ts (iter_new ts true) n = Ok (it', expect_fwd ts (-1) n) /\
+              inv ts (it_tree it') /\
+              (Z.of_nat n >= num_trees ts + 1 -> it_more it' = false /\ t_index (it_tree it') = -1).
+Proof. exact iter_forward_proof. Qed.
+
+Theorem iter_reversed : forall ts n, valid_tsb ts = true ->
+  exists it', iter_n core ts (iter_new ts false) n = Ok (it', expect_rev (num_trees ts) n) /\
+              inv ts (it_tree it') /\
+              (Z.of_nat n >= num_trees ts + 1 -> it_more it' = false /\ t_index (it_tree it') = -1).
+Proof. exact iter_reverse_proof. Qed.
 
 (* F4 (general form): in every reachable non-null state Tree.seek(NaN) passes both guards and
    tsk_tree_seek_linear exhausts every fuel. *)
